@@ -1,36 +1,78 @@
 #include "refshim.hpp"
 #include <cstring>
-
-extern "C" {
-void refsetpar_(double *, double *, int *);
-void refsetnme_(double *, double *, double *, double *, double *, double *, double *);
-void refgetev_(int *, int *, double *, double *, double *);
-void refclrev_();
-void refgetrange_(double *, double *, double *, int *, int *);
-void refcall_(int *, int *, int *, int *, int *, int *, int *);
-}
+#include <dlfcn.h>
+#include <link.h>
 
 namespace ref {
 vf::TapeRandom * g_rnd = nullptr;
+int g_sub50 = 0;
 
-void set_params(double e1, double e2) { int nev = 2000000000; refsetpar_(&e1, &e2, &nev); }
-void set_nme(const double n[7])
+static std::string dir_of_self()
+{
+  const char * e = getenv("VERIF_REFDIR");
+  if (e) return e;
+  return REFDIR_DEFAULT;
+}
+
+struct CbArg { Lib * lib; void * handle; };
+static int phdr_cb(struct dl_phdr_info * info, size_t, void * arg)
+{
+  CbArg * a = (CbArg *)arg;
+  if (!info->dlpi_name || !*info->dlpi_name) return 0;
+  // identify the object by comparing its link_map base with the handle's
+  struct link_map * lm = nullptr;
+  if (dlinfo(a->handle, RTLD_DI_LINKMAP, &lm) != 0 || !lm) return 0;
+  if ((uintptr_t)lm->l_addr != (uintptr_t)info->dlpi_addr) return 0;
+  uintptr_t rlo = 0, rhi = 0; // RELRO part is read-only after relocation: leave it alone
+  for (int i = 0; i < info->dlpi_phnum; i++) {
+    const ElfW(Phdr) & ph = info->dlpi_phdr[i];
+    if (ph.p_type == PT_GNU_RELRO) { rlo = info->dlpi_addr + ph.p_vaddr; rhi = rlo + ph.p_memsz; rhi = (rhi + 4095) & ~(uintptr_t)4095; }
+  }
+  for (int i = 0; i < info->dlpi_phnum; i++) {
+    const ElfW(Phdr) & ph = info->dlpi_phdr[i];
+    if (ph.p_type == PT_LOAD && (ph.p_flags & PF_W)) {
+      uintptr_t lo = info->dlpi_addr + ph.p_vaddr, hi = lo + ph.p_memsz;
+      if (rhi > lo && rlo <= lo) lo = std::min(hi, rhi);
+      if (hi > lo) a->lib->segs.push_back({(char *)lo, (size_t)(hi - lo), {}});
+    }
+  }
+  return 0;
+}
+
+void Lib::open(const std::string & path)
+{
+  h = dlopen(path.c_str(), RTLD_NOW | RTLD_LOCAL);
+  if (!h) throw std::runtime_error(std::string("dlopen failed: ") + dlerror());
+  auto sym = [&](const char * n) { void * p = dlsym(h, n); if (!p) throw std::runtime_error(std::string("missing symbol ") + n); return p; };
+  f_setpar = (decltype(f_setpar))sym("refsetpar_");
+  f_setnme = (decltype(f_setnme))sym("refsetnme_");
+  f_getev = (decltype(f_getev))sym("refgetev_");
+  f_clrev = (decltype(f_clrev))sym("refclrev_");
+  f_getrange = (decltype(f_getrange))sym("refgetrange_");
+  f_call = (decltype(f_call))sym("refcall_");
+  CbArg a{this, h};
+  dl_iterate_phdr(phdr_cb, &a);
+  if (segs.empty()) throw std::runtime_error("reference library segments not found");
+  snapshot(0);
+}
+void Lib::set_params(double e1, double e2) { int nev = 2000000000; f_setpar(&e1, &e2, &nev); }
+void Lib::set_nme(const double n[7])
 {
   double a[7]; memcpy(a, n, sizeof a);
-  refsetnme_(a, a + 1, a + 2, a + 3, a + 4, a + 5, a + 6);
+  f_setnme(a, a + 1, a + 2, a + 3, a + 4, a + 5, a + 6);
 }
-int call(int i2bbs, const std::string & name, int ilevel, int modebb, int istart)
+int Lib::call(int i2bbs, const std::string & name, int ilevel, int modebb, int istart)
 {
   int ichn[16]; int n = (int)std::min<size_t>(16, name.size());
   for (int i = 0; i < n; i++) ichn[i] = (unsigned char)name[i];
   int ier = 0;
-  refcall_(&i2bbs, ichn, &n, &ilevel, &modebb, &istart, &ier);
+  f_call(&i2bbs, ichn, &n, &ilevel, &modebb, &istart, &ier);
   return ier;
 }
-Event get_event()
+Event Lib::get_event()
 {
   Event e; int codes[100]; double pm[300], pt[100];
-  refgetev_(&e.np, codes, pm, pt, &e.tevst);
+  f_getev(&e.np, codes, pm, pt, &e.tevst);
   double t = 0;
   for (int j = 0; j < e.np && j < 100; j++) {
     Particle p; p.code = codes[j]; p.p[0] = pm[3 * j]; p.p[1] = pm[3 * j + 1]; p.p[2] = pm[3 * j + 2];
@@ -38,18 +80,24 @@ Event get_event()
   }
   return e;
 }
-void clear_event() { refclrev_(); }
-Range get_range()
+void Lib::clear_event() { f_clrev(); }
+Range Lib::get_range()
 {
   Range r; int sp[4];
-  refgetrange_(&r.ebb1, &r.ebb2, &r.toall, &r.levelE, sp);
+  f_getrange(&r.ebb1, &r.ebb2, &r.toall, &r.levelE, sp);
   for (int k = 0; k < 4; k++) if (sp[k] > 32 && sp[k] < 127) r.chdspin += (char)sp[k];
   return r;
 }
+void Lib::snapshot(int slot) { for (auto & s : segs) s.copy[slot].assign(s.addr, s.addr + s.len); }
+void Lib::restore(int slot) { for (auto & s : segs) if (!s.copy[slot].empty()) memcpy(s.addr, s.copy[slot].data(), s.len); }
+
+Lib & strict() { static Lib l; if (!l.h) l.open(dir_of_self() + "/libdecay0_ref.so"); return l; }
+Lib & harmonised() { static Lib l; if (!l.h) l.open(dir_of_self() + "/libdecay0_refh.so"); return l; }
 } // namespace ref
 
-// ---- symbols the reference needs -------------------------------------------------
+// ---- symbols the reference needs (resolved from the executable: link with -rdynamic) --------------
 extern "C" {
+void vfnote50_() { ref::g_sub50++; }
 double rnd1_(double *) { return (*ref::g_rnd)(); }
 double rndm_(double *) { return (*ref::g_rnd)(); }
 
